@@ -4,6 +4,8 @@ state that depends on what it changes."""
 
 from __future__ import annotations
 
+from types import SimpleNamespace
+
 import ast
 
 from ..flow import CallGraph, self_stores, self_reads, resolve_accessor_call
@@ -192,6 +194,8 @@ def run(ctx):
     ctx.attempt(live_embedding_rule, ctx)
     ctx.attempt(model_event_rule, ctx)
     ctx.attempt(current_mesh_observed_rule, ctx)
+    ctx.attempt(fresh_fields_rule, ctx)
+    ctx.attempt(notify_all_rule, ctx)
     from ..shared import memo_result_escape_rule as _memo_result_escape_rule
 
     ctx.attempt(_memo_result_escape_rule, ctx, "R14.24", lambda f: f.qualname.startswith("EasyFEA."), 20)
@@ -901,3 +905,74 @@ def current_mesh_observed_rule(ctx, rid="R14.26"):
             r.fail(f.qualname, f"stale:{stored}", f.file, f.lineno, "_Simu.__Update_mesh", f"{label}: the memoised values are not cleared / the flag is not raised after the switch")
         else:
             r.ok(f"{label}: observed, memo cleared, flag raised")
+
+
+def fresh_fields_rule(ctx, rid="R14.27"):
+    """'replacing the mesh ... the next matrices, solution and results are identical to those of a new simulation': a
+    new simulation starts at rest.  `_Simu.__Init_Sols_n` - called by the constructor and by the mesh setter - is
+    interpreted on a simulation that already holds non-zero u, v, a of exactly the size of the new mesh (a mesh replaced by
+    another one with the same number of nodes) and on one whose fields have another size: afterwards every field of every
+    problem type is the zero vector of the size of the current mesh."""
+    from ..xeval import Interp, XObj, XRaise
+    from ..xarray import XArray
+    from ..alg import Poly, is_zero
+
+    repo = ctx.repo
+    simu = repo.cls(SIMU)
+    f = repo.lookup_method(simu, simu.mangle("__Init_Sols_n"))
+    r = ctx.rule(rid, "__Init_Sols_n (constructor, mesh setter): u, v, a of every problem type are zero vectors of the size of the current mesh afterwards, also when fields of that very size were held before", min_instances=3)
+    for label, old_size in (("fields of the same size held before (mesh replaced by one with as many nodes)", 6), ("fields of another size held before", 4), ("no field yet (constructor)", None)):
+        r.instance(fn=f.qualname)
+        attrs = {"mesh": SimpleNamespace(Nn=3), "Get_problemTypes": lambda: ["pA", "pB"], "Get_dof_n": lambda pt=None: 2 if pt == "pA" else 1}
+        if old_size is not None:
+            for nm in ("u", "v", "a"):
+                attrs[f"_Simu__dict_{nm}_n"] = {"pA": XArray((old_size,), [Poly.var(f"{nm}{k}") for k in range(old_size)]), "pB": XArray((3,), [Poly.var(f"{nm}b{k}") for k in range(3)])}
+        obj = XObj(simu, attrs)
+        try:
+            Interp(repo).call_function(f, [], self_obj=obj)
+        except XRaise as e:
+            r.fail(f.qualname, f"fresh-fields:{old_size}", f.file, f.lineno, "_Simu.__Init_Sols_n", f"{label}: raises {e}")
+            continue
+        bad = None
+        for nm in ("u", "v", "a"):
+            d = obj.attrs.get(f"_Simu__dict_{nm}_n")
+            for pt, size in (("pA", 6), ("pB", 3)):
+                v = d.get(pt) if isinstance(d, dict) else None
+                if bad is None and not (isinstance(v, XArray) and v.shape == (size,) and all(is_zero(x) for x in v.data)):
+                    bad = f"{nm}_n of problem {pt} is {'missing' if v is None else ('of shape ' + str(v.shape) if v.shape != (size,) else 'the field held before: ' + str([str(x) for x in v.data][:3]) + '...')}, expected {size} zeros"
+        if bad:
+            r.fail(f.qualname, "fresh-fields", f.file, f.lineno, "_Simu.__Init_Sols_n", f"{label}: {bad}: after the mesh is replaced the simulation keeps the displacement / rates of the old mesh where a new simulation on that mesh starts at rest")
+        else:
+            r.ok(f"{label}: every field is zero and of the size of the mesh")
+
+
+def notify_all_rule(ctx, rid="R14.28"):
+    """'Whatever sequence of public modifications is applied to ... the objects it observes': EVERY event reaches EVERY
+    observer - an observer may do more on an event than raise its flag (per-problem flags of the staggered simulations,
+    memo clearing on a mesh event), so an observer that is already waiting for an update must still be told.
+    `Observable._Notify` is interpreted (with the repository's own observer list) on an observable with three observers,
+    one of them already flagged `needUpdate`: each receives `_Update(observable, event)` exactly once, in registration order."""
+    from ..xeval import Interp, XObj, XRaise
+
+    repo = ctx.repo
+    ob = repo.cls("EasyFEA.Utilities._observers.Observable")
+    f = ob.methods["_Notify"]
+    r = ctx.rule(rid, "Observable._Notify hands the event to every registered observer exactly once, whatever the observer's own state (needUpdate already raised included)", min_instances=1)
+    r.instance(fn=f.qualname)
+    calls = []
+
+    def mk(tag, flagged):
+        return SimpleNamespace(tag=tag, needUpdate=flagged, _Update=lambda observable, event, tag=tag: calls.append((tag, observable, event)))
+
+    observers = [mk("a", False), mk("b", True), mk("c", False)]
+    obj = XObj(ob, {"_Observable__observers": list(observers)})
+    try:
+        Interp(repo, extra_builtins={"getattr": getattr}).call_function(f, ["The mesh has been modified"], self_obj=obj)
+    except XRaise as e:
+        r.fail(f.qualname, "notify-all", f.file, f.lineno, "Observable._Notify", f"raises {e}")
+        return
+    got = [t for t, o, ev in calls if o is obj and ev == "The mesh has been modified"]
+    if got == ["a", "b", "c"]:
+        r.ok("three observers (one already flagged): each told once, in order")
+    else:
+        r.fail(f.qualname, "notify-all", f.file, f.lineno, "Observable._Notify", f"observers a, b (already waiting for an update), c: the event reaches {got}: an observer that is skipped keeps what it does beyond raising its flag undone (the other problem's flag of a staggered simulation, the memo of a moved mesh)")
